@@ -65,12 +65,12 @@ Event(p, kind, cur, resSeq) ==
     [ peer |-> p, kind |-> kind, cur |-> cur, res |-> resSeq, unsup |-> o.unsup,
       out |-> [ code |-> o.code, died |-> "", eqprev |-> (o.data = prev /\ ~newData), decodes |-> TRUE, empty |-> FALSE,
                 ver |-> <<0, 64, 1, "">>, data |-> o.data, td |-> o.data.trace, digest |-> o.data,
-                next |-> o.next, next_dup |-> FALSE, reqs |-> o.reqs, reqs_ok |-> TRUE,
+                next |-> o.next, next_dup |-> FALSE, reqs |-> o.reqs, reqs_ok |-> TRUE, reqsd |-> o.reqs, msgd |-> "",
                 flags |-> <<FALSE, FALSE, FALSE>>, store_ok |-> TRUE, refs_ok |-> TRUE, sig |-> <<>>, newver |-> newver ],
       probes |-> [ idem |-> IF o.code = 0
                             THEN << Probe(p, o.data, curData), Probe(p, o.data, prev), Probe(p, o.data, o.data), Probe(p, o.data, EmptyData) >>
                             ELSE <<>>,
-                   rerun |-> [done |-> FALSE], fresh |-> [done |-> FALSE], recode |-> [done |-> FALSE] ] ]
+                   rerun |-> [done |-> FALSE], rerun_fresh |-> [done |-> FALSE], fresh |-> [done |-> FALSE], recode |-> [done |-> FALSE] ] ]
 
 \* the property ids violated by step e taken from state s to state t (model-level reading of Props)
 Violations(s, t, e) ==
